@@ -8,8 +8,8 @@ CONSTANTS
   DstDom = {"L", "F"}
   Faults = {"none"}
   L4Dom = {"udp"}
-  InSideDom = {0, 1, 2, 3, 4, 999}
-  EgSideDom = {0, 1, 2, 3, 4, 999}
+  InSideDom = {0, 1, 3, 4, 999}
+  EgSideDom = {0, 2, 3, 4, 999}
   PeerDom = {FALSE, TRUE}
   ExpDom = {FALSE, TRUE}
   AuthDom <- Auth3
